@@ -22,7 +22,7 @@ LEVEL_NOTE = ("trusted: custom translator site tools/sites/c06.py (insists on th
               "NaN-skipping reductions / broadcasting / dims rule (validated by correspondence), extraction, harness; integral theorems use the "
               "standard-library Reals axioms reported by Print Assumptions; binary64 rounding is not modelled (tolerance 1e-9)")
 TECHNIQUE = "Coq proof (Q algebra axiom-free, Coquelicot is_RInt for the integral statements) + regenerated kernels + extracted-model correspondence"
-SITES = ["C06.crps", "C06.chain"]
+SITES = ["C06.crps", "C06.chain", "C06.brier"]
 RULE = ("(a) per-case sweep: every ensemble of 1..3 slots over the grid {0,1/2,1,2,NaN} x every observation of that grid x both methods "
         "(exhaustive), plus random ensembles of 1..6 members on the grid k/2, |k|<=6, with NaN members (p in {0,.2,.5}) and NaN observations; "
         "(b) full-function cases: 1-2 data dims of size 1-3 plus a member dim of size 1..6, obs / weights / threshold arrays on random subsets of "
@@ -145,6 +145,15 @@ def same(a, b, tol=1e-9):
     b = np.asarray(b, dtype=float)
     with np.errstate(invalid="ignore"):
         return (np.isnan(a) & np.isnan(b)) | (a == b) | (np.abs(a - b) <= tol * np.maximum(1.0, np.abs(b)))      # a == b: equal infinities
+
+
+def ct_values(ctx, r, desc):
+    """(case, threshold) values of a per-case brier_score_for_ensemble result; a result with other dimensions is a violation (None)"""
+    if not isinstance(r, xr.DataArray) or set(r.dims) != {"case", "threshold"}:
+        ctx.violation("brier_score_for_ensemble(preserve_dims='all') of fcst[case, member], obs[case] does not have the dimensions (case, threshold)", desc,
+                      ["case", "threshold"], [str(d) for d in getattr(r, "dims", [type(r).__name__])])
+        return None
+    return r.transpose("case", "threshold").values
 
 
 # ---------------------------------------------------------------------------------------------------
@@ -276,7 +285,9 @@ def brier_level(ctx, cases, tag):
     wid = np.array([float(b - a) for a, b in zip(pts, pts[1:])])
     for fair in (False, True):
         bs = p.brier_score_for_ensemble(fc, ob, "m", [float(t) for t in mids], fair_correction=fair, preserve_dims="all")
-        bs = bs.transpose("case", "threshold").values
+        bs = ct_values(ctx, bs, {"fn": "brier_score_for_ensemble integral", "members": cases[0][0], "obs": cases[0][1], "fair": fair, "breakpoints": pts})
+        if bs is None:
+            continue
         integ = (bs * wid).sum(axis=1)
         ref = p.crps_for_ensemble(fc, ob, "m", method="fair" if fair else "ecdf", preserve_dims="all").values
         for i, (xs, y) in enumerate(cases):
@@ -297,7 +308,10 @@ def brier_level(ctx, cases, tag):
     # thresholds equal to members / obs (ties), model only vs implementation
     tie_t = [float(t) for t in pts]
     for fair in ((False, True) if has_model(ctx) else ()):
-        bs = p.brier_score_for_ensemble(fc, ob, "m", tie_t, fair_correction=fair, preserve_dims="all").transpose("case", "threshold").values
+        bs = ct_values(ctx, p.brier_score_for_ensemble(fc, ob, "m", tie_t, fair_correction=fair, preserve_dims="all"),
+                       {"fn": "brier_score_for_ensemble integral", "members": cases[0][0], "obs": cases[0][1], "fair": fair, "breakpoints": pts})
+        if bs is None:
+            continue
         for i in ctx.rng.sample(range(len(cases)), min(len(cases), 12)):
             xs, y = cases[i]
             j = ctx.rng.randrange(len(pts))
@@ -410,8 +424,10 @@ def brier_weights_level(ctx, cases, tag):
         if any(x[0] != "ok" for x in (r1, rw, rm, cw)):
             ctx.violation("brier_score_for_ensemble / crps_for_ensemble with weights fails", base, "values", [x[1] if x[0] == "err" else "ok" for x in (r1, rw, rm, cw)])
             continue
-        a1 = r1[1].transpose("case", "threshold").values
-        aw = rw[1].transpose("case", "threshold").values
+        a1 = ct_values(ctx, r1[1], dict(base, members=cases[0][0], obs=cases[0][1]))
+        aw = ct_values(ctx, rw[1], dict(base, members=cases[0][0], obs=cases[0][1], weight=ws[0]))
+        if a1 is None or aw is None:
+            continue
         am = rm[1].values
         cv = cw[1].values
         for i, (xs, y) in enumerate(cases):
@@ -655,8 +671,10 @@ def dtype_level(ctx, cases, fdt, odt, tag):
                 if r[0] != "ok":
                     ctx.violation("brier_score_for_ensemble fails for this storage dtype", dict(d0, members=cases[0][0], obs=cases[0][1], thresholds=ts), "values", r[1])
                     continue
-                bs = r[1].transpose("case", "threshold").values
-                b64 = r64[1].transpose("case", "threshold").values if r64[0] == "ok" else None
+                bs = ct_values(ctx, r[1], dict(d0, members=cases[0][0], obs=cases[0][1], thresholds=ts))
+                b64 = ct_values(ctx, r64[1], dict(d0, members=cases[0][0], obs=cases[0][1], thresholds=ts, fcst_dtype="float64", obs_dtype="float64")) if r64[0] == "ok" else None
+                if bs is None:
+                    continue
                 if list(r[1]["threshold"].values) != tf:
                     ctx.violation("brier_score_for_ensemble: the threshold coordinate of the result is not the thresholds given", dict(d0, thresholds=ts), tf,
                                   [float(v) for v in r[1]["threshold"].values])
@@ -806,7 +824,9 @@ def inf_brier_level(ctx, cases, tag, inf_thresholds=True, fixed=None):
                 ctx.violation("brier_score_for_ensemble fails for infinite members / observations", dict(d0, members=cases[0][0], obs=cases[0][1], thresholds=ts),
                               "values", r[1])
                 continue
-            bs = r[1].transpose("case", "threshold").values
+            bs = ct_values(ctx, r[1], dict(d0, members=cases[0][0], obs=cases[0][1], thresholds=ts))
+            if bs is None:
+                continue
             for i, (xs, y) in enumerate(cases):
                 ctx.case((tag, opn, fair, tuple(map(str, xs)), str(y), len(ts)), nontrivial=any(not isnan(x) for x in xs) and not isnan(y))
                 for j in order:
@@ -848,7 +868,9 @@ def inf_brier_level(ctx, cases, tag, inf_thresholds=True, fixed=None):
             ctx.violation("brier_score_for_ensemble / interval_tw_crps_for_ensemble fails for infinite members / observations",
                           dict(d0, members=cases[0][0], obs=cases[0][1]), "values", [r[1] if r[0] != "ok" else "ok", tw[1] if tw[0] != "ok" else "ok"])
             continue
-        bs = r[1].transpose("case", "threshold").values
+        bs = ct_values(ctx, r[1], dict(d0, members=cases[0][0], obs=cases[0][1]))
+        if bs is None:
+            continue
         tv = tw[1].values
         for i, (xs, y) in enumerate(cases):
             desc = dict(d0, members=xs, obs=y, breakpoints=brk)
